@@ -148,6 +148,22 @@ def run(pid):
     rep.cov["evaluations"] += n2
     total += len(sc2)
     rep.cov["samples"].append(sc2[0]["ops"][:14])
+    # 2b. (C04) index-GC-heavy walks on multi-record index files: records of one file die in different cycles, so the
+    #     collector marks, merges already-deleted spans into newly freed ones, truncates and unlinks piecemeal
+    if pid == "C04":
+        consts = seqeng.kv_consts(6, ["put"] * 6 + ["rem"] + ["flush"] * 5 + ["idxgc"] * 5 + ["reopen", "prigc"], depth + 20, deadlines=(0, 0, 0, 3), lowuses=(85, 101))
+        hs3, r3 = seqeng.gen_histories(consts, "sim", num=nsim // 2, seed=vlib.seed() + 101)
+        rep.cov["transitions"] += r3.states
+        cfg3 = seqeng.sweep(rng, 32, primaries=("mh", "cid"), limits=(70, 120, 200), imm=(False,))
+        for c in cfg3:
+            c["cmp"], c["probe"] = True, "end"
+        sc3 = [{"cfg": cfg3[i % len(cfg3)], "ops": fix_ops(cfg3[i % len(cfg3)], h)} for i, h in enumerate(hs3)]
+        by3, n3 = seqeng.run_and_judge(sc3, "sim3")
+        mine3, other3 = attribute(spec, sc3, by3)
+        report_bad(rep, sc3, mine3)
+        unattributed += len(other3)
+        rep.cov["evaluations"] += n3
+        total += len(sc3)
     # 3. witnesses of repaired defects (must pass)
     ws = witnesses(pid)
     if ws:
